@@ -9,3 +9,4 @@ import Crd.Props.C04
 #print axioms Crd.Props.C04.no_silent_stop
 #print axioms Crd.Props.C04.accepts_iff
 #print axioms Crd.Props.C04.never_crashes
+#print axioms Crd.Props.C04.text_is_tokens_and_trivia
